@@ -47,9 +47,20 @@ def ob_float(which):
             real = lambda **kw: B.bytes_to_float(bytes(kw['b%d' % i] for i in range(4)))
         else:
             out = I.call(B.gen_floats, [by])
-            if not isinstance(out.value, list) or len(out.value) != 1:
+            extra_goal = []
+            if isinstance(out.value, P.CondList) and out.value.items:
+                # conditional yields: exactly one of them must happen for a 4-byte input, its value is the value generated
+                items = out.value.items
+                conds = [c if z3.is_expr(c) else z3.BoolVal(bool(c)) for c, v in items]
+                extra_goal.append(z3.PbEq([(c, 1) for c in conds], 1))
+                e = ctx.lift_float(items[-1][1])
+                for c, v in reversed(list(zip(conds, [v for _, v in items]))[:-1]):
+                    e = z3.If(c, ctx.lift_float(v), e)
+                val = P.SFloat(e)
+            elif isinstance(out.value, list) and len(out.value) == 1:
+                val = out.value[0]
+            else:
                 return kern.harness_error('gen_floats on 4 bytes did not yield exactly one value: %r' % (out.value,))
-            val = out.value[0]
             out.value = val
             real = lambda **kw: list(B.gen_floats(bytes(kw['b%d' % i] for i in range(4))))[0]
         word = z3.Concat(*bvs)
@@ -74,7 +85,7 @@ def ob_float(which):
             p2 = z3.fpFP(z3.BitVecVal(0, 1), z3.Extract(10, 0, k + 1023), z3.BitVecVal(0, 52))
             mag = z3.fpMul(P.RNE, mant, p2)
             spec = z3.If(z3.Extract(31, 31, word) == 1, z3.fpNeg(mag), mag)
-        goal = [out.ok(), z3.fpEQ(ctx.lift_float(val), spec)]
+        goal = [out.ok(), z3.fpEQ(ctx.lift_float(val), spec)] + (extra_goal if which == 'gen_floats' else [])
         r = P.decide(assume, goal, side=out.side, names=['b0', 'b1', 'b2', 'b3'], timeout_s=120)
         r['functions'] = sorted(ctx.encoded)
         return r
